@@ -118,6 +118,13 @@ def single_def(f, declid, defs=None):
     d = defs.get(declid, [])
     if len(d) == 1 and d[0][0] == "decl" and d[0][2] is not None:
         return d[0][2]
+    # a reference is bound once, by its declaration: assignments through it write the referent and do not re-define the alias
+    if d and d[0][0] == "decl" and d[0][2] is not None and not any(x[0] == "addr" for x in d):
+        rt = getattr(f, "_ref_locals", None)
+        if rt is None:
+            rt = f._ref_locals = set(dd["id"] for n in f.nodes if n["k"] == "DeclStmt" for dd in n["decls"] if dd.get("t", "").endswith("&"))
+        if declid in rt:
+            return d[0][2]
     return None
 
 
@@ -144,6 +151,8 @@ def xr(f, i, defs=None, depth=0):
         return xr(f, c[0], defs, depth) + ("->" if n.get("arrow") else ".") + n["m"]
     if k in ("CStyleCastExpr", "CXXStaticCastExpr", "CXXReinterpretCastExpr", "CXXFunctionalCastExpr") and c:
         return "(%s)%s" % (n["t"], xr(f, c[0], defs, depth))
+    if k == "CXXOperatorCallExpr" and n.get("oop") == "*" and len(c) == 2:
+        return "*" + xr(f, c[1], defs, depth)
     return f.r(i)
 
 
@@ -363,3 +372,27 @@ def nullness(f, field_text, fresh_locals=True):
 
     init = "top"
     return forward(f, init, transfer, refine, join)
+
+
+def alias_root(f, name, defs=None, depth=0):
+    """if the local `name` is defined exactly once, by a declaration whose initialiser is just another variable (a reference or
+    copy alias, e.g. the parameter of an inlined helper), the name of that variable (followed transitively); else `name`"""
+    if depth > 5:
+        return name
+    defs = defs if defs is not None else local_defs(f)
+    for n in f.nodes:
+        if n["k"] != "DeclStmt":
+            continue
+        for d in n["decls"]:
+            if d["n"] == name and d.get("init") is not None:
+                dl = defs.get(d["id"], [])
+                if len([x for x in dl if x[0] != "decl"]) > 0:
+                    return name
+                i = f.strip(d["init"])
+                while f.nodes[i]["k"] in ("CStyleCastExpr", "CXXStaticCastExpr", "CXXConstCastExpr") and f.nodes[i]["c"]:
+                    i = f.strip(f.nodes[i]["c"][0])
+                t = f.nodes[i]
+                if t["k"] == "DeclRefExpr" and t["ref"].get("dk") in ("local", "parm") and t["ref"]["n"] != name:
+                    return alias_root(f, t["ref"]["n"], defs, depth + 1)
+                return name
+    return name
